@@ -270,7 +270,9 @@ func (sdb *DbSqlite) verifyNodeHashes(fix bool) error {
 	// transaction, otherwise a write that commits during the walk makes the
 	// verification see (and, when fixing, store) hashes that do not belong
 	// to the points it has read, and a fix collides with the writer.
+	verifYield("write-lock")
 	sdb.writeLock.Lock()
+	defer verifYield("write-unlocked")
 	defer sdb.writeLock.Unlock()
 	tx, err := sdb.db.Begin()
 	if err != nil {
